@@ -262,6 +262,21 @@ func (c *Ctx) labelArms(f *ssa.Function) (map[string][]Effect, map[string]*Path)
 			}
 		}
 	})
+	// table form of the same dispatch: the keys of a read-only table that is read under the lower-cased label
+	allInstrs(f, func(_ *ssa.BasicBlock, in ssa.Instruction) {
+		lk, ok := in.(*ssa.Lookup)
+		if !ok {
+			return
+		}
+		tb := NewTB()
+		if tab := roTableOfTerm(tb.Of(lk.X)); tab != nil && strings.Contains(tb.Of(lk.Index).String(), "strings.ToLower") {
+			for _, k := range tab.Keys {
+				if k.Kind() == constant.String {
+					labels = append(labels, constant.StringVal(k))
+				}
+			}
+		}
+	})
 	labels = append(labels, "\x00other")
 	var dom []constant.Value
 	for _, l := range labels {
@@ -982,6 +997,9 @@ func ruleC18Pure(c *Ctx) {
 						if _, isStore := in.(*ssa.Store); !isStore {
 							continue
 						}
+					}
+					if roTableOf(gl) != nil {
+						continue // a read-only dispatch table: a constant of the program
 					}
 					bad = append(bad, fmt.Sprintf("%s uses the package-level variable %s at %s", c.P.funcKey(g), gl.Name(), c.P.Pos(in.Pos())))
 				}
